@@ -763,6 +763,8 @@ class Interp:
             elif isinstance(v, (Opaque, Sym)):
                 for i, t in enumerate(target.elts):
                     self.assign(t, Sym("%s[%d]" % (v.name, i), "any", None), env)
+            elif v is None or isinstance(v, (int, float, bool)):
+                raise RaiseEx("TypeError", "cannot unpack non-iterable %s object" % type(v).__name__, target)
             else:
                 raise Unsupported("unpack of %r" % (v,))
         elif isinstance(target, ast.Subscript) and isinstance(target.slice, ast.Slice):
@@ -1525,6 +1527,22 @@ class Interp:
             return list(_it.islice(pos[0], *pos[1:]))
         if name == "itertools.chain.from_iterable" and len(pos) == 1 and isinstance(pos[0], (list, tuple)) and all(isinstance(x, (list, tuple)) for x in pos[0]):
             return [y for x in pos[0] for y in x]
+        if name == "itertools.groupby" and pos and isinstance(pos[0], (list, tuple, StreamVal, HostIter)):
+            # runs of consecutive items with equal keys; each group is one-shot (next() / iteration consume it)
+            keyf = kw.get("key", pos[1] if len(pos) > 1 else None)
+            out, last, cur = [], None, None
+            for x in list(pos[0]):
+                k_ = self.call(keyf, [x], {}, node, {}) if keyf is not None else x
+                same = cur is not None and (k_ is last or (_concrete_key(k_) and _concrete_key(last) and type(k_) is type(last) and k_ == last)
+                                            or (isinstance(k_, Sym) and isinstance(last, Sym) and k_.name == last.name))
+                if cur is not None and not same and not (_concrete_key(k_) and _concrete_key(last)) and not (isinstance(k_, Sym) and isinstance(last, Sym)):
+                    raise Unsupported("groupby over keys that cannot be compared: %r, %r" % (last, k_))
+                if not same:
+                    cur = GenList()
+                    out.append((k_, cur))
+                    last = k_
+                cur.append(x)
+            return out
         if name == "collections.defaultdict":
             import collections as _c
             fac = pos[0] if pos else None
